@@ -61,27 +61,40 @@ func runSolver(sp solverSpec, file string, ms int, seed int, ctx context.Context
 	return solveResult{Status: st, Solver: sp.name, Secs: time.Since(start).Seconds(), Output: txt}
 }
 
-// solve decides one SMT file: the three solvers are raced and the first
-// definitive answer (sat/unsat) wins.
+// solve decides one SMT file.  z3-new is tried alone first (it decides almost
+// everything that is decidable, and running one process per obligation keeps the
+// 16 cores from being oversubscribed); what it leaves undecided is raced on the
+// other two solvers, with z3-new continuing alongside.
 func solve(file string, budgetMs int, seed int) solveResult {
+	first := budgetMs / 2
+	if first < 500 {
+		first = budgetMs
+	}
+	r := runSolver(solvers[0], file, first, seed, context.Background())
+	if r.Status != "unknown" {
+		return r
+	}
+	spent := r.Secs
 	ctx, cancel := context.WithCancel(context.Background())
 	defer cancel()
 	ch := make(chan solveResult, len(solvers))
 	for _, sp := range solvers {
-		go func(sp solverSpec) { ch <- runSolver(sp, file, budgetMs, seed, ctx) }(sp)
+		go func(sp solverSpec) { ch <- runSolver(sp, file, budgetMs, seed+1, ctx) }(sp)
 	}
-	best := solveResult{Status: "unknown", Solver: "all"}
+	best := solveResult{Status: "unknown", Solver: "all", Output: r.Output}
 	for i := 0; i < len(solvers); i++ {
-		r := <-ch
-		if r.Status != "unknown" {
+		rr := <-ch
+		if rr.Status != "unknown" {
 			cancel()
-			return r
+			rr.Secs += spent
+			return rr
 		}
-		best.Output += "--- " + r.Solver + "\n" + r.Output + "\n"
-		if r.Secs > best.Secs {
-			best.Secs = r.Secs
+		best.Output += "--- " + rr.Solver + "\n" + rr.Output + "\n"
+		if rr.Secs > best.Secs {
+			best.Secs = rr.Secs
 		}
 	}
+	best.Secs += spent
 	return best
 }
 
